@@ -22,6 +22,9 @@ def kernel_table():
         for kind in ('scalar', 'sparse', 'array'):
             for inplace in (False, True):
                 t.append((f"_{'i' if inplace else ''}{op}_{kind}", ('binary', op, kind, inplace)))
+    for op in ('eq', 'ne', 'gt', 'lt', 'ge', 'le'):
+        for kind in ('scalar', 'sparse', 'array'):
+            t.append((f'_{op}_{kind}', ('binary', op, kind, False)))
     from engine.vcg import kernels_more
     t.extend(kernels_more.TABLE)
     return t
